@@ -16,10 +16,12 @@ for pol, cls in enumerate(['NoHistoryImpl', 'AlwaysHistoryImpl', 'ShallowHistory
         loops=({} if pol == 0 else {0: LOOP(['m_currentStates'] if pol == 2 else ['m_initialStates'], 'current_states',
                '&& self->m_initialStates[g_k] == __CPROVER_loop_entry(self->m_initialStates[g_k])' if pol == 2 else '')})))
     UNITS.append(Unit('back.%s.history_entry' % cls, ['C08', 'C13'], 'back', Part(H, ['class ' + cls], 'const int * history_entry ( Event const &'),
-        'const int* history_entry(hist_t* self, event_t evt)', 'history_back.spec.h', xform=xf, defines=D))
+        'const int* history_entry(hist_t* self, event_t evt)', 'history_back.spec.h', xform=xf, defines=D, replay=['hist', 'ser', 'copy']))
     UNITS.append(Unit('back.%s.process_deferred_events' % cls, ['C08', 'C05', 'C13'], 'back', Part(H, ['class ' + cls], 'bool process_deferred_events ( Event const & ) const'),
-        '_Bool process_deferred_events(hist_t* self, event_t evt)', 'history_back.spec.h', xform=xf, defines=D))
+        '_Bool process_deferred_events(hist_t* self, event_t evt)', 'history_back.spec.h', xform=xf, defines=D, replay=['hist', 'ser', 'copy']))
     UNITS.append(Unit('back.%s.assign' % cls, ['C15', 'C08'], 'back', Part(H, ['class ' + cls], '& operator = ('),
         'hist_t* history_assign(hist_t* self, hist_t* rhs)', 'history_back.spec.h',
         xform=back_xform(['contains'], refparams=('rhs',), members=mem, rewrites=[dict(name='THIS-ret', pat='return self ;', rep='return self ;', min=1, max=1)]),
         defines=D, loops={0: ('__CPROVER_assigns(i, __CPROVER_object_whole(self))\n__CPROVER_loop_invariant(0 <= i && i <= NumberOfRegions && (g_k < i ==> (self->m_initialStates[g_k] == rhs->m_initialStates[g_k]%s)))\n__CPROVER_decreases(NumberOfRegions - i)') % (' && self->m_currentStates[g_k] == rhs->m_currentStates[g_k]' if pol == 2 else '')}))
+for _u in UNITS:
+    if not _u.replay: _u.replay = ['hist', 'copy', 'ser']      # every unit needs native families to fall back on when it is undecided
